@@ -621,7 +621,7 @@ fn run_case<N: Fld>(rep: &mut Report, rng: &mut Rng, c: &Case, stage: &str) {
         let got = out.coef.get(k).copied().unwrap_or(zc());
         let err = (got - cref[k]).norm();
         // rounding part of the error in units of eps kappa |cref|: what is left after the zeroing allowance
-        let excess = (err - tf * c.tol).max(0.0);
+        let excess = nmax(err - tf * c.tol, 0.0);
         rep.max(&format!("{}/coef_err_over_eps_kappa_cmax", name), if excess == 0.0 { 0.0 } else { excess / cunit });
         if !(err <= cbound) {
             if k > out.order {
